@@ -144,18 +144,35 @@ def run (g : Guard) (clk : Clock) : List Op → List Call × List Bool × Guard 
     let (calls, rets, gf, cf) := run o.guard o.clock rest
     (o.calls ++ calls, (match o.ret with | some b => [b] | none => []) ++ rets, gf, cf)
 
-/-- The variant of `with_completion` on the UNFIXED tree (`completion: Some(completion)`), kept to state the
-    defect as a theorem. -/
-def stepUnfixedWithCompletion (g : Guard) (c : Nat) : Guard :=
-  { st := g.st, data := g.data, completion := some c }
+/-! ### Completion adapters (src/span.rs `completion`, :1129-1136 and :1306-1400)
 
-/-! ### The default completion (`completion::Default`) -/
+  A `SpanGuard` calls `Completion::complete(span)` on whatever it holds. The adapters the crate offers:
+    * `&C`                              → `(**self).complete(span)`
+    * `completion::from_fn(f)`          → `f(span.erase())`
+    * `dyn ErasedCompletion`, `… + Send + Sync` → `dispatch_complete(span.erase())` → the erased value's `complete`
+    * `completion::from_emitter(e)`     → `e.emit(span)`: the span AS AN EVENT (`Span::to_event`: module, template
+                                          `{span_name} completed`, the span's extent, props = `evt_kind`, `span_name`,
+                                          then the span's own) handed straight to the emitter — no filter, no ambient
+                                          context, no clock
+    * `Empty`                           → nothing at all
+  A completion is named in the model by a number; `compCode` packs the recorder's id and the adapter it sits
+  behind into that number, `deliver` says what reaches the recorder for one `Completion::complete` call. -/
 
-structure DefaultCfg where
-  tpl : Option Str          -- with_tpl
-  lvl : Option Str          -- with_lvl (Display text of the level value)
-  panicLvl : Option Str     -- with_panic_lvl
-  deriving Repr
+inductive Adapter where
+  | direct | ref | fromFn | fromEmitter | erased | erasedSendSync | empty
+  deriving Repr, DecidableEq
+
+def Adapter.code : Adapter → Nat
+  | .direct => 0 | .ref => 1 | .fromFn => 2 | .fromEmitter => 3 | .erased => 4 | .erasedSendSync => 5 | .empty => 6
+
+def Adapter.ofCode (n : Nat) : Adapter :=
+  match n % 8 with
+  | 1 => .ref | 2 => .fromFn | 3 => .fromEmitter | 4 => .erased | 5 => .erasedSendSync | 6 => .empty | _ => .direct
+
+/-- recorder `n` behind adapter `a` -/
+def compCode (n : Nat) (a : Adapter) : Nat := n * 8 + a.code
+def compId (c : Nat) : Nat := c / 8
+def compAdapter (c : Nat) : Adapter := Adapter.ofCode c
 
 /-- The extent of an emitted event. -/
 inductive Ext where
@@ -173,6 +190,51 @@ structure Emitted where
   extent : Option Ext
   props : Props             -- as enumerated: completion props, then the span's own, then ambient
   deriving Repr, DecidableEq
+
+/-- What reaches the recorder: the span itself, or (behind `from_emitter`) the span as an event. -/
+inductive Delivered where
+  | span (to : Nat) (c : Call)
+  | event (to : Nat) (e : Emitted)
+  deriving Repr, DecidableEq
+
+/-- `Span::to_event` (:683-700) -/
+def spanEvent (c : Call) : Emitted :=
+  { mdl := c.mdl, tpl := "{span_name} completed", extent := rangeExt c.extent
+    props := [("evt_kind", "span"), ("span_name", c.name)] ++ c.props }
+
+def deliver (c : Call) : List Delivered :=
+  match compAdapter c.by_ with
+  | .empty => []
+  | .fromEmitter => [.event (compId c.by_) (spanEvent c)]
+  | _ => [.span (compId c.by_) { c with by_ := compId c.by_ }]
+
+/-! ### How the guard holds its clock (core/src/clock.rs:21-115, core/src/runtime.rs:452-456)
+
+  `&T`, `Option<T>`, `Box<T>`, `Arc<T>`, `AssertInternal<T>`, `dyn ErasedClock (+ Send + Sync)` forward `now()` to
+  the clock they hold — one call per call; `Option::None` is the `Empty` clock: it never reads anything. -/
+
+inductive ClockHolder where
+  | direct | ref | some_ | none_ | box | arc | assertInternal | erased | erasedSendSync
+  deriving Repr, DecidableEq
+
+/-- the script the guard effectively runs against -/
+def ClockHolder.script (h : ClockHolder) (clk : Clock) : Clock :=
+  match h with
+  | .none_ => []
+  | _ => clk
+
+/-- The variant of `with_completion` on the UNFIXED tree (`completion: Some(completion)`), kept to state the
+    defect as a theorem. -/
+def stepUnfixedWithCompletion (g : Guard) (c : Nat) : Guard :=
+  { st := g.st, data := g.data, completion := some c }
+
+/-! ### The default completion (`completion::Default`) -/
+
+structure DefaultCfg where
+  tpl : Option Str          -- with_tpl
+  lvl : Option Str          -- with_lvl (Display text of the level value)
+  panicLvl : Option Str     -- with_panic_lvl
+  deriving Repr
 
 /-- `Default::complete`: completion props ++ (evt_kind, span_name, span props) ++ ambient; the extent is the
     span's (the emit call gets an `Empty` clock, so no fallback reading). -/
